@@ -40,7 +40,7 @@ REAL_VS_STUB = {
              'Python registry lookup'],
     'stub_or_simulator_owned': ['block program (choice tape)', 'injected exceptions', 'predicate callbacks'],
 }
-EXPECTED_PROBES = ('enter', 'exit', 'raise-exit', 'raise-in-callback', 'non-lifo-exit', 'nested-depth>=3', 'false-inside-true',
+EXPECTED_PROBES = ('raise-base-exception', 'raise-from-optree', 'enter', 'exit', 'raise-exit', 'raise-in-callback', 'non-lifo-exit', 'nested-depth>=3', 'false-inside-true',
                    'iterator-across-exit', 'observe')
 
 V = _C._verif if hasattr(_C, '_verif') else None
@@ -50,6 +50,13 @@ NS_CHOICES = (GLOBAL, 'a', 'b')
 
 class Injected(Exception):
     pass
+
+
+class InjectedBase(BaseException):
+    """like KeyboardInterrupt / GeneratorExit: not an Exception subclass"""
+
+
+INJECTED = (Injected, InjectedBase)
 
 
 def tier_config(tier):
@@ -314,6 +321,12 @@ def run_job(job, io):
                 # an iterator created inside the block keeps the mode it was created under
                 it = optree.tree_iter(dict(PROBE_DICT), namespace=kns)
                 pending_iters.append((it, model.eff(kns), kns))
+                # also over a defaultdict and over dicts nested below the root, and one that is started inside the block
+                it2 = optree.tree_iter([defaultdict(int, PROBE_DICT), (dict(PROBE_DICT),)], namespace=kns)
+                pending_iters.append((it2, model.eff(kns), kns, 2))
+                it3 = optree.tree_iter({'zz': dict(PROBE_DICT), 'aa': 0}, namespace=kns)
+                first = next(it3)
+                pending_iters.append((it3, model.eff(kns), kns, ('started', first)))
                 if children is not None:
                     for (csym, cch, craise) in children:
                         run_block(depth + 1, pending_iters, csym, cch, craise)
@@ -330,15 +343,31 @@ def run_job(job, io):
                         if what <= 2:
                             try:
                                 run_block(depth + 1, pending_iters)
-                            except Injected:
+                            except INJECTED:
                                 if tape.draw(2, 'propagate'):
                                     oplog.append('reraise')
                                     raise
                                 step('caught#%d' % depth, model.vector())
                         elif what == 3:
-                            oplog.append('raise')
+                            how = tape.draw(4, 'raise-how')
                             probes['raise-exit'] += 1
-                            raise Injected('body')
+                            if how == 0:
+                                oplog.append('raise')
+                                raise Injected('body')
+                            if how == 1:
+                                oplog.append('raise-base')
+                                probes['raise-base-exception'] += 1
+                                raise InjectedBase('body')
+                            if how == 2:
+                                # an error raised by optree itself from inside the block
+                                oplog.append('raise-optree')
+                                probes['raise-from-optree'] += 1
+                                try:
+                                    optree.tree_unflatten(optree.tree_structure(extra_tree, namespace=kns), [])
+                                except ValueError as e:
+                                    raise Injected('optree') from e
+                            oplog.append('raise-generator-exit')
+                            raise InjectedBase('GeneratorExit-like')
                         elif what == 4:
                             oplog.append('raise-in-callback')
                             probes['raise-in-callback'] += 1
@@ -411,7 +440,7 @@ def run_job(job, io):
         for (sym, ch, rz) in forest:
             try:
                 run_block(1, pending, sym, ch, rz)
-            except Injected:
+            except INJECTED:
                 step('caught#0', model.vector())
     else:
         n_top = 1 + tape.draw(4, 'n-top')
@@ -419,15 +448,25 @@ def run_job(job, io):
             budget[0] -= 1
             try:
                 run_block(1, pending)
-            except Injected:
+            except INJECTED:
                 step('caught#0', model.vector())
     final = observe(model, viol, 'final', probes, extra_tree)
     if final != initial:
         viol('not-restored', 'final', 'mode vector at the end %r differs from the initial one %r' % (final, initial))
-    for it, eff, kns in pending:
+    for item in pending:
+        it, eff, kns = item[:3]
         probes['iterator-across-exit'] += 1
         got = list(it)
-        want = [PROBE_DICT[k] for k in (PROBE_KEYS_INS if eff else PROBE_KEYS_SORTED)]
+        base = [PROBE_DICT[k] for k in (PROBE_KEYS_INS if eff else PROBE_KEYS_SORTED)]
+        want = base
+        if len(item) > 3 and item[3] == 2:
+            want = base + base
+        elif len(item) > 3:
+            # {'zz': {...}, 'aa': 0}: insertion order -> zz first (its first leaf was already taken), sorted -> 'aa' first
+            full = (base + [0]) if eff else ([0] + base)
+            if item[3][1] != full[0]:
+                viol('iterator-mode', 'iterator', 'first leaf %r taken inside the block does not match mode %s' % (item[3][1], eff))
+            want = full[1:]
         if got != want:
             viol('iterator-mode', 'iterator', 'an iterator created under mode %s in namespace %r yields %r after the block exited; expected %r' % (eff, kns, got, want))
     dig = hashlib.sha256(repr((oplog, [v['cls'] + v['site'] for v in violations])).encode()).hexdigest()
